@@ -1,22 +1,23 @@
-use std::time::Instant;
-use tyme4rs::tyme::lunar::*;
 use tyme4rs::tyme::solar::*;
 use tyme4rs::tyme::Tyme;
 fn main() {
-  let t = Instant::now();
-  let w = SolarDay::from_ymd(2000, 1, 1).get_solar_week(0);
-  for n in [1000isize, 10000, 100000, 400000] { let t = Instant::now(); let _ = w.next(n); println!("SolarWeek next({}) {:?}", n, t.elapsed()); }
-  let l = SolarDay::from_ymd(2000, 1, 1).get_lunar_day();
-  let lw = l.get_lunar_month().get_weeks(0)[1].clone();
-  for n in [1000isize, 10000, 100000, 300000] { let t = Instant::now(); let _ = lw.next(n); println!("LunarWeek next({}) {:?}", n, t.elapsed()); }
-  for n in [1000isize, 100000, 2000000] { let t = Instant::now(); let _ = l.next(n); println!("LunarDay next({}) {:?}", n, t.elapsed()); }
-  let sd = SolarDay::from_ymd(2000, 1, 1).get_sixty_cycle_day();
-  for n in [1000isize, 100000, 2000000] { let t = Instant::now(); let _ = sd.next(n); println!("SixtyCycleDay next({}) {:?}", n, t.elapsed()); }
-  let lh = SolarTime::from_ymd_hms(2000, 1, 1, 3, 0, 0).get_lunar_hour();
-  for n in [1000isize, 100000] { let t = Instant::now(); let _ = lh.next(n); println!("LunarHour next({}) {:?}", n, t.elapsed()); }
-  let lm = LunarMonth::from_ym(2000, 1);
-  for n in [100isize, 3000, 30000] { let t = Instant::now(); let _ = lm.next(n); println!("LunarMonth next({}) {:?}", n, t.elapsed()); }
-  let sh = SolarTime::from_ymd_hms(2000, 1, 1, 3, 0, 0).get_sixty_cycle_hour();
-  for n in [1000isize, 900000000] { let t = Instant::now(); let _ = sh.next(n); println!("SixtyCycleHour next({}) {:?}", n, t.elapsed()); }
-  println!("{:?}", t.elapsed());
+  // margin of the repaired term lookup: day of term 2m+2 minus the first day of month m+1 (must be >= 0)
+  let mut min_next = (i64::MAX, 0, 0);
+  // and of the start term itself: term 2m+1 should start on or before the last day ... no requirement; report the max lateness of term 2m+1 (start after month end is fine)
+  let mut min_start = (i64::MAX, 0, 0);
+  for y in 1..=9998isize {
+    for m in 1..=12usize {
+      let first_next = SolarMonth::from_ym(y, m).next(1).get_days()[0];
+      let (ty, ti) = if m * 2 + 2 >= 24 { (y + 1, (m * 2 + 2 - 24) as isize) } else { (y, (m * 2 + 2) as isize) };
+      let t = SolarTerm::from_index(ty, ti).get_julian_day().get_solar_day();
+      let margin = t.subtract(first_next) as i64;
+      if margin < min_next.0 { min_next = (margin, y, m); }
+      let (sy, si) = if m * 2 + 1 >= 24 { (y + 1, (m * 2 + 1 - 24) as isize) } else { (y, (m * 2 + 1) as isize) };
+      let s = SolarTerm::from_index(sy, si).get_julian_day().get_solar_day();
+      let ms = s.subtract(first_next) as i64;
+      if ms < min_start.0 { min_start = (ms, y, m); }
+    }
+  }
+  println!("min (term 2m+2 day - first day of month m+1) = {:?}", min_next);
+  println!("min (term 2m+1 day - first day of month m+1) = {:?}", min_start);
 }
